@@ -4,7 +4,7 @@
 VERUS_TRUST = [
     'A3: vstd specifications of Vec, HashMap, slices, arrays (assumed to describe std)',
     'A4: Z3 4.12 and the Verus VC generator / Rust front end',
-    'extraction: tools/weave.py copies item text verbatim from /repo/src and applies only the desugaring rules R0-R27 and lift options of DESIGN.md 2.2 (applications counted per function in functions_under_contract)',
+    'extraction: tools/weave.py copies item text verbatim from /repo/src and applies only the desugaring rules R0-R43 and lift options of DESIGN.md 2.2 (applications counted per function in functions_under_contract)',
 ]
 
 PROPS = {
@@ -298,6 +298,46 @@ PROPS = {
         title='literal encoding: integer encoders/decoders proved for all values and sizes (Kani), aggregate concatenation and enum layout proved (Verus); decoding, parsing, validation by bounded differential',
         unverified=['Literal::as_bits range arm; enum_tag_size / enum_max_size / enum_tag_number; from_unwrapped_bits / from_result_bits', 'Literal::parse, Display', 'Literal::is_of_type',
                     'Evaluator::set_* / TryFrom<EvalOutput>'],
+    ),
+    'C14': dict(
+        units=['env', 'envmerge'],
+        deps=[('builder', 'C04')],
+        witness=['c14', '--programs', '1200'],
+        witness_thorough=['c14', '--programs', '150000'],
+        level='proof',
+        technique='Verus contracts on the real lexical environment (src/env.rs: Env::new / get / let_in_current_scope / assign_mut / push / pop against an '
+                  'abstract view, a sequence of finite maps) and on the per-variable merge of CircuitBuilder::mux_envs (lifted); bounded differential of '
+                  'whole programs against a reference interpreter on the real compiler',
+        claim='Deductive proof (Verus/Z3) on the real code, for every environment, name and value. (1) src/env.rs, every operation against the WHOLE '
+              'abstract view (one finite map per scope, outermost first): new is one empty scope; push adds an empty innermost scope and pop drops exactly '
+              'the innermost one, leaving every other scope as it was; let_in_current_scope changes the innermost scope only, at the bound name only; '
+              'assign_mut changes the innermost scope that declares the name, at that name only, and no other scope; get returns (a clone of) the binding '
+              'of the innermost declaring scope, None if none declares the name. Consequences proved as lemmas over these contracts: after an assignment '
+              'the assigned variable denotes the new value and every other variable denotes what it did before; after push; let x; assignments to x; pop '
+              'every variable denotes what it denoted before the scope was entered (a shadowing binding ends with its scope, and assignments inside go to '
+              'the inner binding). (2) CircuitBuilder::mux_envs, the merge of ONE variable (lifted inner block; push_mux by its contract from unit builder): '
+              'every wire of the merged binding carries, for every input, the value of the binding of the path actually taken, and a variable that both '
+              'paths left on the same wires keeps them. NOT under contract: the walk of mux_envs over scopes and names (BTreeMap iteration), and the arms '
+              'of compile that USE the environment - VarAssign through nested accessors, the per-path clones of If / Match / JoinLoop / && / ||, the scopes of '
+              'Block / FnCall / ForEachLoop; as the labelled bounded stand-in, random programs (let / let mut with shadowing, assignment and op-assignment '
+              'through constant and input-dependent array / tuple / struct accessors, whole-value copies, nested blocks, if / else with side effects in '
+              'conditions and short-circuit operands, match, for loops, calls of helpers whose parameters carry the names of the caller\'s variables and '
+              'that use a constant which the caller shadows) are compiled and compared, on 12 inputs each, with a reference interpreter (lexical scopes, '
+              'values copied on assignment and call): all variables of main are compared at the end.',
+        note='Trusted: vstd\'s specification of BTreeMap (new, insert, get, contains_key) and Vec (push, pop, last_mut, index_mut); the model of std for '
+             'String keys, stated once in the template: String\'s Ord is a total order consistent with == (key_obeys_cmp_spec, borrowed_key_ordering_matches) '
+             'and looking a BTreeMap<String, V> up with a &str finds the entry of the String with the same characters (two admitted axioms; std\'s Borrow '
+             'contract); T::clone through vstd\'s `cloned`; the BTreeMap entry API is rewritten to contains_key + insert (R42: Entry::Occupied means the key '
+             'is present, OccupiedEntry::insert sets its value); reversed iteration over the scopes is rewritten to a descending index loop (R41); the '
+             'impl bound `T: Debug` is dropped (used by no extracted function); assign_mut\'s panic for an undeclared name is proved unreachable under the '
+             'precondition "some scope declares the name" (a caller obligation, established by the type checker); builder-core contracts (push_mux) proved '
+             'in unit builder, which this check runs too; rules R0, R3, R5d, R5e. Oracle of the bounded part: the interpreter in replay/src/c14.rs.',
+        title='lexical environment: every operation of Env changes exactly the scope and name it should (proved, whole view); merge of a variable is the '
+              'value of the path taken (proved); scoping, copying and merging in whole programs by bounded differential against a reference interpreter',
+        unverified=['CircuitBuilder::mux_envs outer loops (BTreeMap iteration over scopes and names; its check `a.len() != a.len()` never fires)',
+                    'TypedStmt::compile VarAssign (read-modify-write through nested accessors), LetMut / Let pattern bindings',
+                    'the per-path clones and merges of If / Match / JoinLoop / && / ||, the scopes of Block / FnCall / ForEachLoop (compile.rs)',
+                    'the type checker\'s own use of Env (check.rs)'],
     ),
     'C12': dict(
         units=['consts'],
